@@ -3,6 +3,7 @@ package main
 import (
 	"crypto/elliptic"
 	"crypto/sha512"
+	"fmt"
 	"math/big"
 	"math/rand"
 	"strings"
@@ -303,6 +304,30 @@ func execRobust(c *ctx, in ev) []ev {
 	w := getRobustWorld(c.seed)
 	fn := gS(in, "fn")
 	b := gB(in, "in")
+	big, _ := in["big"].(map[string]any)
+	if big != nil {
+		// a large input, described by a recipe (the trace carries its length, not its bytes)
+		n := jInt(big["n"])
+		b = make([]byte, n)
+		h := w.honestIn[fn]
+		switch big["kind"].(string) {
+		case "ff":
+			for i := range b {
+				b[i] = 0xff
+			}
+		case "random":
+			copy(b, randBytes(newRand(c.seed, fmt.Sprintf("big-%s-%d", fn, n)), n))
+		case "honest+zeros":
+			copy(b, h)
+		case "honest-repeated":
+			for i := 0; len(h) > 0 && i < n; i += len(h) {
+				copy(b[i:], h)
+			}
+		case "honest+random":
+			copy(b, randBytes(newRand(c.seed, fmt.Sprintf("big-%s-%d", fn, n)), n))
+			copy(b, h)
+		}
+	}
 	if gBool(in, "honest") {
 		// honest inputs depend on this process's world (library randomness):
 		// the case names the honest input, the world supplies it
@@ -312,7 +337,10 @@ func execRobust(c *ctx, in ev) []ev {
 	copy(buf, b)
 	var res string
 	o := observe(true, func() { res = callConsumer(w, fn, buf[:len(b):len(b)], in) })
-	e := ev{"op": "Call", "fn": fn, "in": B(b), "honest": gBool(in, "honest"), "res": res}
+	e := ev{"op": "Call", "fn": fn, "in": B(b), "in_len": len(b), "big": big != nil, "honest": gBool(in, "honest"), "res": res}
+	if big != nil {
+		e["in"] = B(nil)
+	}
 	o.fill(e)
 	return []ev{e}
 }
@@ -348,6 +376,12 @@ func genRobust(c *ctx, emit func(ev)) {
 				n = r.Intn(10)
 			}
 			call(fn, randBytes(r, n), false)
+		}
+		// large inputs (64 KiB and 1 MiB): memory and time must stay in proportion
+		for _, n := range []int{1 << 16, 1 << 20} {
+			for _, k := range []string{"zeros", "ff", "random", "honest+zeros", "honest-repeated", "honest+random"} {
+				emit(ev{"op": "Call", "fn": fn, "in": B(nil), "honest": false, "big": ev{"n": n, "kind": k}})
+			}
 		}
 		// all-zero / all-ones strings of the honest length and its neighbours
 		for _, d := range []int{-1, 0, 1} {
